@@ -122,6 +122,13 @@ def r14_9(ctx, end: str) -> None:
             ctx.note(f"R14.9: [first exit {first}] the first close is not evaluable over the model ({len(o1)} outcomes)")
             continue
         ctx.count("reclose_cells")
+        # aclose() is "leave the block now, without an exception": every exit is handed (None, None, None) by it - whatever
+        # exception the *caller* of aclose() may be handling at that moment is not the stack's business
+        got_args = [e_[1] for e_ in o1[0].env.get("@trace", ()) if e_[0] == "CB1"]
+        ctx.check(bool(got_args) and all(a_ == (None, None, None) for a_ in got_args), "R14.9", u, "aclose",
+                  f"[aclose() with one registered exit that {({'R': 'raises', 'F': 'returns a false value', 'T': 'suppresses'})[first]}] the "
+                  "exit is called with (None, None, None): closing is leaving the block without an exception",
+                  witness=f"the exit received {got_args}")
         env2 = {k: v for k, v in o1[0].env.items() if k.startswith("@f:")}
         env2.update({me: "SELF", "@conts": {0: ("CB2",)}, "@field": 0, "@trace": ()})
         try:
